@@ -1,7 +1,7 @@
 (* C31 - Serialised and pickled objects reflect current state and round-trip: the composite-key encoding.
    Property theorems only.  reduce_composite_pk / encode_part are re-translated from /repo's Bag._reduce_composite_pk on every run
    (Gen/C31Reduce.v); key parts are modelled by their str() images, lists of arbitrary code points (',', '*', '\' included). *)
-Require Import PonyV.Base.PyBase PonyV.Model.C31Codec PonyV.Gen.C31Reduce PonyV.Proofs.C31Codec PonyV.Model.C31Bag PonyV.Proofs.C31Bag PonyV.Model.C31Flush PonyV.Proofs.C31Flush.
+Require Import PonyV.Base.PyBase PonyV.Model.C31Codec PonyV.Gen.C31Reduce PonyV.Proofs.C31Codec PonyV.Model.C31Bag PonyV.Proofs.C31Bag PonyV.Model.C31Flush PonyV.Proofs.C31Flush PonyV.Model.C31Pickle PonyV.Proofs.C31Pickle.
 
 (* an explicit decoder reads every encoded key back *)
 Theorem C31_pk_decode : forall pk : list (list Z), pk <> [] -> decode (reduce_composite_pk pk) = pk.
@@ -45,6 +45,42 @@ Theorem C31_bag_result_keys : forall (K : Type) (assign : nat -> K) (pk : nat ->
   bag_result_keys assign pk objs = map (fun o => Some (final_key assign pk o)) objs /\ ~ In None (bag_result_keys assign pk objs).
 Proof. exact @bag_result_keys_final. Qed.
 Print Assumptions C31_bag_result_keys.
+
+(* Pickling (model of Entity.__reduce__ / unpickle_entity / _db_set_(unpickling=True), QueryResult state, SetInstance.__reduce__):
+   only loaded, unmodified objects can be pickled; unpickled in a session that has not loaded the object, every attribute has the value
+   it had at pickling time; in general the unpickling session's own loaded value wins; if both sessions saw the same database values
+   the unpickled object has equal attribute values; query results keep their items in order; a one-to-many collection wrapper gets its
+   items back (many-to-many: Findings/C31.v) *)
+Theorem C31_pickle_only_loaded : forall st v p, pickle_entity st v = Ok p -> st = Loaded /\ p = v.
+Proof. exact pickle_entity_ok. Qed.
+Print Assumptions C31_pickle_only_loaded.
+
+Theorem C31_pickle_roundtrip_fresh : forall st v p, pickle_entity st v = Ok p -> forall a, unpickle_entity Loaded no_vals p a = v a.
+Proof. exact roundtrip_fresh. Qed.
+Print Assumptions C31_pickle_roundtrip_fresh.
+
+Theorem C31_pickle_roundtrip_general : forall here_st here p a, here_st <> Deleted ->
+  unpickle_entity here_st here p a = match here a with Some w => Some w | None => p a end.
+Proof. exact roundtrip_general. Qed.
+Print Assumptions C31_pickle_roundtrip_general.
+
+Theorem C31_pickle_equal_values : forall (dbv : nat -> Z) st v p here_st here,
+  pickle_entity st v = Ok p -> here_st <> Deleted ->
+  (forall a x, v a = Some x -> x = dbv a) -> (forall a x, here a = Some x -> x = dbv a) ->
+  forall a x, unpickle_entity here_st here p a = Some x -> x = dbv a.
+Proof. exact roundtrip_equal_values. Qed.
+Print Assumptions C31_pickle_equal_values.
+
+Theorem C31_pickle_query_result : forall (I J : Type) (u : I -> J) fetched fetch,
+  unpickle_query_result u (pickle_query_result fetched fetch) = map u (match fetched with Some l => l | None => fetch end) /\
+  length (unpickle_query_result u (pickle_query_result fetched fetch)) = length (pickle_query_result fetched fetch).
+Proof. exact @query_result_roundtrip. Qed.
+Print Assumptions C31_pickle_query_result.
+
+Theorem C31_pickle_set_except_known : forall items ref_loaded, (forall i, In i items -> ref_loaded i = true) ->
+  unpickle_set OneToMany [] items ref_loaded = items.
+Proof. exact set_roundtrip_one_to_many. Qed.
+Print Assumptions C31_pickle_set_except_known.
 
 (* non-vacuity: ('a*', ',c') and ('a', '*,c') -- equal after naive joining -- get different keys, and decode back *)
 Example C31_nonvacuous :
